@@ -45,8 +45,9 @@ def fits40(m):
 
 
 class LU:
-    def __init__(self, typ, defs, dim, mag, named, base=None, factors=(), org=False):
+    def __init__(self, typ, defs, dim, mag, named, base=None, factors=(), org=False, tb=0):
         self.typ, self.defs, self.dim, self.mag, self.named = typ, defs, dim, mag, named
+        self.tb = tb  # the library's ordering tiebreaker of the (base) unit
         self.org = org  # carries an origin of its own (library units only)
         self.factors = factors  # library units a compound member is built from
         # the named unit that remains when an anonymous scaling is stripped: (type, magnitude)
@@ -74,7 +75,7 @@ def collision_families(units):
     fam = {}
     for u in units:
         if not u.has_origin:
-            fam.setdefault((model.key(u.dim), model.key(u.mag)), []).append(u.name)
+            fam.setdefault((model.key(u.dim), model.key(u.mag), u.tiebreak), []).append(u.name)
     return [set(v) for v in fam.values() if len(v) > 1]
 
 
@@ -144,7 +145,7 @@ def build_lists(units, rnd, n_lists):
             r = rnd.random()
             if r < 0.45:
                 u = rnd.choice(lib)
-                members.append(LU("au::%s" % u.name, "", u.dim, u.mag, True, org=u.has_origin))
+                members.append(LU("au::%s" % u.name, "", u.dim, u.mag, True, org=u.has_origin, tb=u.tiebreak))
             else:
                 for _ in range(20):
                     sm = rnd_mag(rnd, big=rnd.random() < 0.4)
@@ -157,7 +158,7 @@ def build_lists(units, rnd, n_lists):
                 if r < 0.75:
                     members.append(LU("N%d" % i, "struct N%d : %s {};" % (i, ex), base.dim, mag, True))
                 elif r < 0.9 or not members:
-                    members.append(LU(ex, "", base.dim, mag, False, base=("au::%s" % base.name, base.mag)))
+                    members.append(LU(ex, "", base.dim, mag, False, base=("au::%s" % base.name, base.mag), tb=base.tiebreak))
                 else:
                     # the SAME unit as an earlier member, spelled as a scaling of a different library unit:
                     # dimension and magnitude tie, so only the scale-factor tie-breaker orders the two
@@ -167,16 +168,16 @@ def build_lists(units, rnd, n_lists):
                     if not sm2 or not fits40(sm2) or not model.mag_is_rational(sm2):
                         continue
                     members.append(LU("decltype(au::%s{} * (%s))" % (other.name, mag_cpp(sm2)), "", base.dim, tgt.mag, False,
-                                      base=("au::%s" % other.name, other.mag)))
+                                      base=("au::%s" % other.name, other.mag), tb=other.tiebreak))
         # exclusion: two DISTINCT unit types of identical magnitude (documented ordering limitation);
         # anonymous scaled units of equal magnitude are the same type when built from the same base
         bad = len(members) < 2
         for a, b in itertools.combinations(members, 2):
             # two distinct NAMED units of identical magnitude: the documented limitation
-            if a.named and b.named and model.key(a.mag) == model.key(b.mag) and a.typ != b.typ and a.org == b.org:
+            if a.named and b.named and model.key(a.mag) == model.key(b.mag) and a.typ != b.typ and a.org == b.org and a.tb == b.tb:
                 bad = True  # (Kelvins and Celsius tie on magnitude but differ in origin: orderable)
             # ... and so are the named units left after stripping anonymous scalings (Hertz vs Becquerel)
-            if model.key(a.base[1]) == model.key(b.base[1]) and a.base[0] != b.base[0]:
+            if model.key(a.base[1]) == model.key(b.base[1]) and a.base[0] != b.base[0] and a.tb == b.tb:
                 bad = True
             # (a named and an anonymous unit, or two anonymous scalings of different-magnitude bases,
             # are ordered by the avoidance / scale-factor tie-breakers even when their magnitudes tie)
